@@ -191,7 +191,7 @@ def _collect(strategy, n, seed_value):
 def _enumerate_positions(tier, shard, nshards):
     """Every class at every position of a few generated documents per shard."""
     vs = int(os.environ.get('VERIF_SEED', '1') or 1)
-    ndocs = 1 if tier == 'quick' else 5
+    ndocs = 1 if tier == 'quick' else 4
     max_cut = 40 if tier == 'quick' else 400
     # Hypothesis starts with minimal examples: draw a pool, keep the richest
     pool_n = 12 if tier == 'quick' else 40
@@ -672,7 +672,7 @@ def _enumerate_bytes(tier, shard, nshards):
     if tier != 'thorough':
         return
     # coverage-guided campaign in a subprocess (same oracle: check_bytes)
-    seconds = int(os.environ.get('C20_FUZZ_SECONDS', '60'))
+    seconds = int(os.environ.get('C20_FUZZ_SECONDS', '45'))
     work = env.new_dir('c20fuzz')
     corpus, findings = work / 'corpus', work / 'findings'
     corpus.mkdir()
